@@ -36,6 +36,9 @@ PROPS = {
             J("gf2p16", "C08_table_step_1", bound="table entries 16384..32767"),
             J("gf2p16", "C08_table_step_2", bound="table entries 32768..49151"),
             J("gf2p16", "C08_table_step_3", bound="table entries 49152..65534"),
+            J("gf2", "C08_times_cut", tier="thorough", tag="@z3-new", args=["-solver", "z3-new"], bound="same harness decided by z3 5.1.0 (cross-solver check)"),
+            J("gf2", "C08_div_cut", tier="thorough", tag="@z3-new", args=["-solver", "z3-new"], bound="same harness decided by z3 5.1.0"),
+            J("gf2p16", "C08_T_times", tier="thorough", tag="@z3-new", args=["-solver", "z3-new"], bound="same harness decided by z3 5.1.0"),
         ],
     ),
     "C09": dict(
@@ -54,6 +57,7 @@ PROPS = {
             J("gf2p16", "C09_exported_muladd", bound="every even length 0..70 bytes"),
             J("gf2p16", "C09_platformLE", bound="0..19 words through the unsafe []T<->[]byte views"),
             J("gf2p16", "C09_asm_replay", kind="asmsym", bound="the four production kernels of slice_amd64.s as assembled by go tool asm: every length allowed by the callers (scalar: even, >= 2; SSSE3: >= 32; < 2^62), every constant, every content, symbolic base addresses, in != out and in == out; loops cut by induction on the iteration number"),
+            J("gf2p16", "C09_dispatch_mul", tier="thorough", tag="@z3-new", args=["-solver", "z3-new"], bound="same harness decided by z3 5.1.0 (cross-solver check)"),
         ],
     ),
     "C11": dict(
@@ -93,6 +97,7 @@ PROPS = {
             J("rsec16", "C12_parallel_data", bound="shard length 2..24 bytes, goroutines 1..4, 2x2 symbolic matrix, symbolic data, forward and reverse task order"),
             J("rsec16", "C12_parallel_data_long", bound="shard length 26..64 bytes, goroutines 1..6 (2..4 workers, clamped last chunk)"),
             J("rsec16", "C12_parallel_out", bound="shard length 2..6 bytes, goroutines 1..3"),
+            J("rsec16", "C12_params", tier="thorough", tag="@z3-new", args=["-solver", "z3-new"], bound="same harness decided by z3 5.1.0 (cross-solver check)"),
         ],
     ),
     "C04": dict(
